@@ -16,6 +16,7 @@ def check(ctx):
     layout.r_partition(ctx, 'R18.6')
     c07.r_value_to_structural(ctx, 'R18.7')
     c07.r_layout_tables(ctx, 'R18.8', c07.LAYOUT_CONSTRUCT, 20)
+    c07.r_uint_tables(ctx, only={'get_type', 'from-primitive', 'structural-value', 'structural-type'})
     satisfy.r_witness_node_typing(ctx, 'R18.9')
     satisfy.r_finalizers(ctx, 'R18.1')
     satisfy.r_consistency_gate(ctx, 'R18.2')
